@@ -200,6 +200,8 @@ class Evaluator:
                 return ("NODE", f.attr, tuple(self.ev(a) for a in e.args), {k.arg: self.ev(k.value) for k in e.keywords})
             if isinstance(f, ast.Name) and f.id == "len":
                 return len(self.ev(e.args[0]))
+            if isinstance(f, ast.Name) and f.id in ("sum", "any", "all", "min", "max", "sorted", "tuple", "list", "set", "str", "bool", "int") and not e.keywords and len(e.args) == 1:
+                return {"sum": sum, "any": any, "all": all, "min": min, "max": max, "sorted": sorted, "tuple": tuple, "list": list, "set": set, "str": str, "bool": bool, "int": int}[f.id](self.ev(e.args[0]))
             if isinstance(f, ast.Attribute) and f.attr in ("rstrip", "lstrip", "strip", "lower", "upper", "endswith", "startswith", "count") and not e.keywords:
                 base = self.ev(f.value)
                 if isinstance(base, str):
@@ -209,6 +211,21 @@ class Evaluator:
                 if isinstance(base, dict):
                     return base.get(*[self.ev(a) for a in e.args])
             raise AnalysisError(f"_parse_constant: call {S.unparse(f)} outside the evaluated subset")
+        if isinstance(e, (ast.GeneratorExp, ast.ListComp, ast.SetComp)) and len(e.generators) == 1 and isinstance(e.generators[0].target, ast.Name) and not e.generators[0].is_async:
+            g = e.generators[0]
+            out = []
+            saved = self.env.get(g.target.id, self)
+            for x in self.ev(g.iter):
+                self.env[g.target.id] = x
+                if all(self.truth(c) for c in g.ifs):
+                    out.append(self.ev(e.elt))
+            if saved is self:
+                self.env.pop(g.target.id, None)
+            else:
+                self.env[g.target.id] = saved
+            return set(out) if isinstance(e, ast.SetComp) else out
+        if isinstance(e, ast.IfExp):
+            return self.ev(e.body) if self.truth(e.test) else self.ev(e.orelse)
         raise AnalysisError(f"_parse_constant: expression {type(e).__name__} outside the evaluated subset")
 
 
